@@ -224,6 +224,28 @@ fn ng_min_k(case: &OpCase) -> Result<u32, String> {
 pub fn run(s: &Scn, st: &mut Stats, check_structure: bool) -> Verdict {
     let case = &s.case;
     DEFERRED.with(|d| *d.borrow_mut() = None);
+    if case.op.starts_with("rx.") {
+        let c0 = crate::ops_parse::RxCircuit { case: case.clone(), known: false };
+        // the transition table (one row per transition and per final state) must fit too
+        let table_rows = match catch(|| crate::ops_parse::rx_of(case).to_lib().to_automaton()) {
+            Ok(a) => a.transitions.len() + a.final_states.len() + 1,
+            Err(p) => return Verdict::Harness(format!("rx.parse: compiling the expression panicked at {}: {}", p.site(), p.msg)),
+        };
+        let k_min = (usize::BITS - (table_rows + 64).leading_zeros()).max(9);
+        let mut k = None;
+        for kk in k_min..=16u32 {
+            match catch(|| rayon::sim::isolated(1, || record_structure(kk, &c0, false))) {
+                Ok(Ok(_)) => {
+                    k = Some(kk);
+                    break;
+                }
+                Ok(Err(_)) => continue,
+                Err(p) => return Verdict::Harness(format!("rx.parse: configuration panicked at {}: {}", p.site(), p.msg)),
+            }
+        }
+        let Some(k) = k else { return Verdict::Harness("rx.parse: no k <= 16 fits".into()) };
+        return run_generic(s, st, check_structure, k, &|known| crate::ops_parse::RxCircuit { case: case.clone(), known });
+    }
     if case.op.starts_with("ng.") {
         let k = match ng_min_k(case) {
             Ok(k) => k,
@@ -293,7 +315,7 @@ fn run_generic<C: midnight_proofs::plonk::Circuit<Fq>>(s: &Scn, st: &mut Stats, 
             ops::Judgement::Inadmissible => {
                 return Verdict::Violation(Viol::new(
                     "DomainNotEnforced",
-                    format!("DomainNotEnforced:{}", case.op),
+                    format!("DomainNotEnforced:{}{}", case.op, ops::published_class(case, &honest.bound_plain)),
                     format!("{}: the inputs are outside the documented domain (or the assertion is false) but the circuit is satisfied with public values {:?}", desc(), pubs(&honest.bound_plain)),
                 ))
             }
@@ -364,7 +386,7 @@ fn run_generic<C: midnight_proofs::plonk::Circuit<Fq>>(s: &Scn, st: &mut Stats, 
                     return Verdict::Violation(
                         Viol::new(
                             "Unsound",
-                            format!("Unsound:{}", case.op),
+                            format!("Unsound:{}{}", case.op, ops::published_class(case, &r.bound_plain)),
                             format!(
                                 "{} {:?} {:?}: with the Byzantine edit {plan:?} the circuit is satisfied with public values {:?}: {e}",
                                 case.op,
@@ -405,7 +427,7 @@ fn run_generic<C: midnight_proofs::plonk::Circuit<Fq>>(s: &Scn, st: &mut Stats, 
                                     return Verdict::Violation(
                                         Viol::new(
                                             "Unsound",
-                                            format!("Unsound:{}", case.op),
+                                            format!("Unsound:{}{}", case.op, ops::published_class(case, &bp2)),
                                             format!(
                                                 "{} {:?} {:?}: with the Byzantine edit {plan:?} followed by {made} local repair(s) of other cells in the failing gate rows, the circuit is satisfied with public values {:?}: {e}",
                                                 case.op,
@@ -494,7 +516,7 @@ fn run_generic<C: midnight_proofs::plonk::Circuit<Fq>>(s: &Scn, st: &mut Stats, 
                 return Verdict::Violation(
                     Viol::new(
                         "Unsound",
-                        format!("Unsound:{}", case.op),
+                        format!("Unsound:{}{}", case.op, ops::published_class(case, &bp)),
                         format!(
                             "{} {:?} {:?}: after honest witness generation, replacing the value of advice cell (column {}, row {}) and of its copy cycle ({} cells) by {:?}{} leaves the circuit satisfied with public values {:?}: {e}",
                             case.op,
